@@ -50,6 +50,7 @@ func releaseDecoder(dec *Decoder) {
 	dec.hdr.colorCache = nil
 	// Keep pixels, transformBuf, and huffScratch for reuse.
 	losslessDecoderPool.Put(dec)
+	verifhook.PoolPut("lossless.Decoder")
 }
 
 // VP8L decoder errors.
